@@ -1135,7 +1135,18 @@ func init() {
 				db = c10OpenDry()
 			}
 			c, sch, typ := genC10Case(rng, db, i%3 != 0, r)
-			tx := c10Exec(db, typ, c, nil)
+			var tx *gorm.DB
+			func() {
+				defer func() {
+					if p := recover(); p != nil { // the unchanged tree does not panic on any generated DryRun statement
+						r.Violate(Violation{Kind: "correspondence", Suite: "stmt", Input: c, Observed: fmt.Sprint("panic: ", p), Note: "gorm panicked while building the DryRun statement"})
+					}
+				}()
+				tx = c10Exec(db, typ, c, nil)
+			}()
+			if tx == nil {
+				continue
+			}
 			obs := c10Observe(tx)
 			if c.Path == "create_maps" {
 				sort.Strings(obs.Insert)
